@@ -9,7 +9,7 @@ from typing import Callable, Iterable
 from . import cfg as cfgmod
 from .cfg import CFG, Node, build_cfg
 from .consts import UNKNOWN, Folder
-from .loader import AnalysisError, ClassInfo, FuncInfo, ModuleInfo, Program, call_name, calls_in, norm, own_nodes, parent
+from .loader import AnalysisError, ClassInfo, FuncInfo, ModuleInfo, Program, call_name, calls_in, tnorm as norm, own_nodes, parent
 
 
 class Ctx:
